@@ -237,7 +237,7 @@ def random_choice(rng, allow_trunc=True, persistent=False):
     if ch['te'] != 'none' and rng.random() < 0.8:
         ch['cl'] = 'none'
     ch['conn'] = rng.choice(['none', 'none', 'close', 'keep-alive'])
-    ch['fmt'] = rng.choice(['crlf'] * 4 + ['lf', 'nospace', 'folded', 'dup'])
+    ch['fmt'] = rng.choice(['crlf'] * 4 + ['lf', 'nospace', 'folded', 'dup', 'foldblank'])
     size = rng.choice([0, 1, 2, 3, 5, 17, 64, 200] + ([1000, 5000, 9000] if rng.random() < 0.15 else []))
     ch['content'] = bytes(rng.choice(b'abcdefghij \n<>/') if rng.random() < 0.9 else rng.randrange(256) for _ in range(size))
     ch['gzip'] = rng.random() < 0.3
@@ -329,8 +329,12 @@ def build_cmsg(ch, rng=None):
         fields.append((KPAD, p, p == 1 and ((fmt == 'folded' and not fold_te and not fold_cl) or (fmt == 'dup' and cl == 'none'))))
     if r:
         r.shuffle(fields)
-    for f in fields:
+    for k_, f in enumerate(fields):
         add_field(*f)
+        if fmt == 'foldblank' and k_ == (len(fields) - 1) // 2:
+            # obs-fold whose continuation holds nothing but white space: still part of the header block, not its end
+            lines.append(('head', (r.choice([b' ', b'\t', b'  \t ']) if r else b' '), eol, None))
+            nonabs.append(1)
     lines.append(('head', b'', eol, None))
     chk = te != 'none' and not bodyless
     cm = {'method': method, 'status': status,
